@@ -81,6 +81,15 @@ Theorem c16_reports_all_delivered : forall x thr sched s',
 Proof. exact reports_all_delivered. Qed.
 Print Assumptions c16_reports_all_delivered.
 
+(* Wait is blocked for as long as ANY thread is between wg.Add(1) and wg.Done(): an external Flush that is still
+   executing counts exactly like the flusher -- also after the background flusher has retired (guarded = false):
+   no hypothesis on guarded / on the flusher's existence *)
+Theorem c16_wait_blocked_while_entered : forall cf s i snap t, reachable cf s ->
+  nth_error (s_threads s) i = Some (TW3 snap) -> In t (s_threads s) -> entered t = 1%nat ->
+  step cf s (LT i AGo) = None.
+Proof. exact wait_blocked_while_entered. Qed.
+Print Assumptions c16_wait_blocked_while_entered.
+
 (* the WaitGroup counter never goes negative *)
 Theorem c16_no_panic : forall cf s, reachable cf s -> s_panicked s = false.
 Proof. exact no_panic. Qed.
@@ -174,6 +183,20 @@ Example c16_ex_reports :
   exists s, wrun [0; 0; 2; 2; 1; 1]%nat (mkw None [WWant 7; WWant 9; WWantSet] []) = Some s /\
             w_out s = [7%nat; 9%nat] /\ w_thr s = [WDone; WDone; WDone].
 Proof. split; [vm_compute; reflexivity|]. eexists. split; [vm_compute; reflexivity|]. split; reflexivity. Qed.
+
+(* "flusher retired while a caller-side Flush is executing" is a reachable state of the LTS: Add(1); a Flush that
+   holds [1] just before Execute; an idle period and a tick: the flusher quits (guarded = false, goroutine dead);
+   Wait from a third caller is blocked at wg.Wait; once the Flush has executed and done wg.Done, Wait returns
+   with [1] executed *)
+Example c16_ex_wait_after_retire :
+  exists s, run retire_cfg retire_sched (init 3 0) = Some s /\
+    s_guarded s = false /\ nth_error (s_threads s) 3 = Some TDead /\
+    nth_error (s_threads s) 1 = Some (TFl KRet (L4 [1%nat])) /\
+    nth_error (s_threads s) 2 = Some (TW3 [1%nat]) /\
+    step retire_cfg s (LT 2 AGo) = None /\
+    exists s', run retire_cfg [LT 1 AGo; LT 1 AGo; LT 2 AGo] s = Some s' /\
+      s_executed s' = [[1%nat]] /\ nth_error (s_threads s') 2 = Some TIdle.
+Proof. exact wait_after_retire_witness. Qed.
 
 (* the premise of the Wait theorems is reachable, also with a snapshot task in hand-over *)
 Example c16_ex_wait_premise :
